@@ -11,7 +11,7 @@ SEMANTIC = [
     "possible bit shift underflow/overflow", "decreases not satisfied", "loop invariant not satisfied",
     "index out of bounds", "recommendation not met", "unreachable", "could not prove termination",
     "assertion failed", "cannot show invariant", "failed this postcondition", "failed precondition",
-    "slice index out of range", "not all errors may have been reported",
+    "slice index out of range", "not all errors may have been reported", "requires not satisfied",
 ]
 RESOURCE = ["rlimit", "resource limit", "timed out", "timeout"]
 
